@@ -670,6 +670,11 @@ func (l *lexer) lexRedir() action {
 		}
 	case IO_NUMBER:
 		goto Redir
+	case WORD:
+		if l.tr(tok) != WORD {
+			// reserved word
+			return l.lexCmd(tok)
+		}
 	}
 	return l.lexToken(tok)
 Redir:
